@@ -117,6 +117,8 @@ def run_case(i, rng, rec, tier, state):
     use2 = False
     if which == "Polygon":
         c = gen.polygon_case(rng)
+        if c.get("straight_corner") is not None:
+            rec.cls("polygon:straight-corner" + (":first-three-collinear" if c["straight_corner"] == 1 else ""))
         V = c["V"]
         cls = cs.ConvexPolygon if (c["convex"] and rng.random() < 0.4) else cs.Polygon
         try:
